@@ -500,6 +500,9 @@ type Record struct {
 	RevsBefore, RevsAfter []*appsv1.ControllerRevision
 	PVCsBefore, PVCsAfter []*corev1.PersistentVolumeClaim
 
+	// ListedPods: the reconcile got as far as listing pods from the cache (CachePods is then that listing)
+	ListedPods bool
+
 	Actions []*Action
 	Err     error
 	Panic   interface{}
@@ -569,6 +572,7 @@ func (c *Cluster) Reconcile(key string) *Record {
 	rec.PVCsBefore = c.PVCs()
 
 	c.Log = nil
+	c.snapTaken = false
 	c.logging = true
 	func() {
 		defer func() {
@@ -584,6 +588,11 @@ func (c *Cluster) Reconcile(key string) *Record {
 		rec.Err = c.r.ctrl.VerifSync(key)
 	}()
 	c.logging = false
+	rec.ListedPods = c.snapTaken
+	if c.snapTaken {
+		rec.CachePods = c.snap
+		c.snap = nil
+	}
 	rec.Actions = c.Log
 	c.Log = nil
 
